@@ -8,7 +8,7 @@
                      (v = 0), the k-th one a write cut short (v = 1), power loss after k operations (v = 2) *)
 From Coq Require Import List NArith Lia.
 From Coq Require Import Permutation ZArith.
-From C19 Require Import Model ProofsMap ProofsIds ProofsAgg ProofsProto ProofsMerge ProofsDir.
+From C19 Require Import Model ProofsMap ProofsIds ProofsAgg ProofsProto ProofsMerge ProofsDir ProofsProxy.
 Import ListNotations.
 
 (* thm:C19_resume_complete, part 1 — the first run (StartSearch + processRequest on an empty directory):
@@ -119,6 +119,29 @@ Theorem C19_resumed_equals_sync : forall fs chain live per hi rev naggs limit co
   /\ take limit (q_ids a) = q_ids sy /\ q_hist a = q_hist sy /\ aggs_equiv (q_aggs a) (q_aggs sy).
 Proof. exact resumed_equals_sync. Qed.
 Print Assumptions C19_resumed_equals_sync.
+
+(* proxy level (proxy/search/async.go FetchAsyncSearchResult): the proxy reports Done exactly when
+   every shard that knows the request is done (shards none of whose replicas knows it are left out) *)
+Theorem C19_proxy_done_iff : forall naggs size hi rev shards d q,
+  proxy_fetch naggs size hi rev shards = Some (d, q) ->
+  d = forallb fst (answers shards) /\ answers shards <> [].
+Proof. exact proxy_done_iff. Qed.
+Print Assumptions C19_proxy_done_iff.
+
+(* ... and a Done answer is the synchronous merge (one MergeQPRs with the fetch size) of what the
+   shards answer when they are done — by C19_resumed_equals_sync their own synchronous answers *)
+Theorem C19_proxy_done_result : forall naggs size hi rev shards q finals,
+  proxy_fetch naggs size hi rev shards = Some (true, q) ->
+  Forall2 (fun x f => fst x = true -> snd x = f) (answers shards) finals ->
+  q = sync_search naggs size hi rev finals.
+Proof. exact proxy_done_result. Qed.
+Print Assumptions C19_proxy_done_result.
+
+Example C19_proxy_last_done_refuted :
+  let shards := [[RAnswer false w_run]; [RNotFound; RAnswer true w_fin]] in
+  option_map fst (proxy_fetch_last 0 10 0 false shards) = Some true
+  /\ option_map fst (proxy_fetch 0 10 0 false shards) = Some false.
+Proof. exact proxy_last_refuted. Qed.
 
 (* the histogram is a fold of commuting events (used above; kept as a statement of its own) *)
 Theorem C19_hist_events_order_free : forall e1 e2 h, Permutation e1 e2 ->
